@@ -8,7 +8,7 @@ def check(tier, seed):
     return G.generic_check(PID, "exploration", tier, seed, coq=False,
         rule="shuffling games (reversible officer/king moves, moves taken back, castling-rights changes, irreversible moves in between) from corpus positions and random placements: CheckRepetitions(1..3) vs the count of earlier positions of the game with the same placement/side/rights/ep field, half-move clock vs plies since the last capture/pawn move (continuing from the FEN value); all 7056 material signatures with up to 3 pieces per side from {N, light B, dark B, R, Q, P} vs the property's must-be-true / must-be-false classes; a case = one position of a game or one signature",
         streams=[dict(name='draw_monitor', kind="monitor", shards=lambda t: 2 if t == "quick" else 16,
-                      args=lambda t, s, sh, path: ['c10-monitor', 6000 if q else 200000, s * 1000 + sh])])
+                      args=lambda t, s, sh, path: ['c10-monitor', 6000 if t == "quick" else 200000, s * 1000 + sh])])
 
 
 def replay(path):
